@@ -258,6 +258,16 @@ fn strings(tier: &str, r: &mut Lcg) -> Vec<String> {
             out.push(t);
         }
     }
+    for _ in 0..(if tier == "thorough" { 60000 } else { 6000 }) {
+        let mut t = String::new();
+        let n = 5 + r.below(6);
+        for i in 0..n {
+            // mostly digits, so that long numerals and numerals with one foreign character arise
+            let c = if r.below(8) == 0 { alpha[r.below(14) as usize] } else if i == 0 && r.below(3) == 0 { '0' } else { alpha[r.below(10) as usize] };
+            t.push(c);
+        }
+        out.push(t);
+    }
     for s in ["15", "16", "127", "128", "255", "256", "16383", "16384", "65535", "65536", "99999", "100000",
               "4294967296", "4294967311", "18446744073709551616", "99999999999999999999999", "+15", "+16", "+127",
               "+128", "+16383", "+16384", "-0", "-1", "+-1", "++1", "1+", "1 ", " 1", "0x10", "1e2", "1.0", "١٢", "１２"] {
